@@ -266,25 +266,34 @@ def fam_lastmeta(rng, tier, i):
     start of a window at every split point; the index is one entry short, two short, absent or intact; optionally the
     data is torn inside its last line. Then the queries whose answers depend on the full timestamp the search found,
     and appends encoded against it (C05 C06 C12 C15 C04)"""
+    # the header of the last section starts d lines before the start of a window: 1 <= d <= K-1 straddles it. Those
+    # combinations come first, once each with the index exactly one entry short and the data intact; then everything.
+    strad = [(p, d) for p in (0, 1, 2, 3, 4) for d in range(1, K(p))]
     combos = [(p, d) for p in (0, 1, 2, 3, 4) for d in range(-1, K(p) + 2)]
-    p, d = combos[(i * 5 + rng.randrange(len(combos))) % len(combos)]
+    fixed = i < 2 * len(strad)
+    if fixed:
+        p, d = strad[i % len(strad)]
+    else:
+        p, d = combos[(i * 5 + rng.randrange(len(combos))) % len(combos)]
     L = p + 2
     Kp = K(p)
     W = ((max(10000, 2 * Kp * L) + L - 1) // L * L) // L            # window, in lines
-    which_window = rng.choice([1, 1, 2])                           # straddle the first or the second window start
+    which_window = (1 if i < len(strad) else 2) if fixed else rng.choice([1, 1, 2])
     step_w = W - Kp                                                # a later window starts (W - overlap) further back
     n = (W if which_window == 1 else W + step_w) - Kp + d          # lines of the last section
     base = rng.choice([1000, 2**33 + 17, 2**50 + 3])
-    nA = rng.choice([7, W + 40])
+    # a long first section keeps the earlier windows from reaching the start of the file (where they would be clipped
+    # and cover the header after all)
+    nA = (which_window * W + 40) if fixed else rng.choice([7, W + 40, 2 * W + 40])
     s = [new_line("m", p), "pushseq %d 1 %d %d" % (base, nA, rng.randrange(256))]
     tB = base + nA + 70000 + rng.randrange(0, 500)
-    torn = rng.random() < 0.35
+    torn = (not fixed) and rng.random() < 0.35
     s.append("pushseq %d 1 %d %d" % (tB, n + (1 if torn else 0), rng.randrange(256)))
     last = tB + n - 1
     s.append("close")
     if torn:
         s.append("fs_cut data:m %d" % rng.randrange(1, L))
-    st = rng.random()
+    st = 0.0 if fixed else rng.random()
     if st < 0.5:
         s.append("fs_cut index:m 16")
     elif st < 0.6:
